@@ -52,10 +52,14 @@ func readMessage(in transport.Transport, pending *[]byte) (pt int, n int, msg []
 		verifHook("tr.reading", nil, in)
 		size, pkt, err := in.ReadPacket()
 		verifHook("tr.read", nil, in, size, err)
-		if err != nil {
+		// a read may deliver the last bytes of the stream together with its end: the packets
+		// in them are handled first, the error comes back with the next read
+		if size > 0 {
+			*pending = append(*pending, pkt[:size]...)
+		}
+		if err != nil && size <= 0 {
 			return 0, 0, []byte{0, 0}, err
 		}
-		*pending = append(*pending, pkt[:size]...)
 	}
 }
 
